@@ -124,9 +124,11 @@ CLAIMED["C12"] = dict(
          "set, and the same history, context, status and output, with empty queue / timers / log (C12_restore_is_faithful); selection, exit order, "
          "history recording and reported configuration of the restored state equal those of the original (C12_restored_behaves_alike, via the C16 "
          "order-independence theorems); persist(restore(persist s)) = persist s (C12_resnapshot); a snapshot is rejected iff it names a state the "
-         "machine lacks. Partial: equality of whole continuations is checked by correspondence (every cut point k of random runs, restored vs "
-         "uninterrupted, K-snap), not proved; JSON validity, isolation from later execution and corrupt-stream rejection are runtime monitors; child "
-         "actors are outside Snap.v.",
+         "machine lacks. C12_restored_continues_alike: for EVERY continuation (any sequence of sends, sync engine, machines without transitions into "
+         "the root or into history states) the restored interpreter and the original produce identical logs, context, history, status and output "
+         "and configurations equal as sets. Partial: history-targeting transitions and async continuations are checked by correspondence (every "
+         "cut point k of random runs, restored vs uninterrupted, K-snap); JSON validity, isolation from later execution and corrupt-stream "
+         "rejection are runtime monitors; child actors are outside Snap.v.",
     technique="Coq proof (sorting canonical under permutation; restore/persist round trip) + vm_compute correspondence (K-snap) + restore-vs-uninterrupted runs",
     design_ref="DESIGN.md section 5 C12")
 CLAIMED["C16"] = dict(
@@ -134,7 +136,11 @@ CLAIMED["C16"] = dict(
     text="Oracle independence, for ALL machines with distinct state ids and ALL listings of the same active set: the selected transitions and their "
          "order, can(), the exit order, what history remembers (hence restored entry order), guard values and the reported configuration do not "
          "depend on the iteration order of the active set, because each is a membership test or a sort with a strict total order "
-         "(C16_sort_canonical and its instances). The model being a function, equal inputs give equal traces. Tied to the code by K-macro and by "
+         "(C16_sort_canonical and its instances); C16_event_oracle_independent / C16_runs_oracle_independent lift this to whole events and whole runs: "
+         "two states differing only in the listing order of the active set are taken by any sequence of sends to states that again differ only in "
+         "that order, with IDENTICAL logs - a relational proof through selection, exit, actions, history, entry, done events, scheduling and "
+         "rollback; the one order-sensitive read (the active child in the done-ness check) is harmless because the configuration is then contained "
+         "in a legal one. The model being a function, equal inputs give equal traces. Tied to the code by K-macro and by "
          "re-running the implementation in subprocesses under different PYTHONHASHSEED values / heap layouts / both engines with byte-for-byte trace "
          "comparison. Generated identifiers and actor ids are only covered by the subprocess comparison.",
     technique="Coq proof (permutation invariance via canonical sorting) + vm_compute correspondence + hash-seed subprocess differential",
